@@ -682,6 +682,22 @@ def _modifier_to_expr(parsed_pattern) -> str:
     return " and ".join(conditions)
 
 
+def _regex_call(pattern: str) -> str:
+    """Render regex(<literal>) so that the literal evaluates to exactly `pattern`.
+
+    The text is re-read by the expression parser as a Python string literal, so a
+    plain "..." literal would turn \\b into a backspace, \\1 into a control character
+    and a double quote into the end of the string. Patterns without backslashes or
+    quotes keep the plain form, patterns with regex escapes are written as raw
+    literals, and anything a raw literal cannot hold falls back to repr().
+    """
+    if '\\' not in pattern and '"' not in pattern and pattern.isprintable():
+        return f'regex("{pattern}")'
+    if '"' not in pattern and not pattern.endswith('\\') and pattern.isprintable():
+        return f'regex(r"{pattern}")'
+    return f'regex({pattern!r})'
+
+
 def csv_rule_to_merchant_rule(
     pattern: str,
     merchant: str,
@@ -709,9 +725,8 @@ def csv_rule_to_merchant_rule(
 
     # Regex pattern match
     if pattern:
-        # Escape any special characters in the pattern for the match expression
         # We use regex() function for the pattern
-        parts.append(f'regex("{pattern}")')
+        parts.append(_regex_call(pattern))
 
     # Add modifier conditions
     modifier_expr = _modifier_to_expr(parsed_pattern)
@@ -813,8 +828,9 @@ def csv_to_merchants_content(csv_rules: List[Tuple]) -> str:
         # Build match expression
         parts = []
         if pattern:
-            # Pattern is already properly escaped for regex use, write as-is
-            parts.append(f'regex("{pattern}")')
+            # Pattern is already properly escaped for regex use; keep it intact
+            # through the string literal the .rules parser reads it from
+            parts.append(_regex_call(pattern))
 
         modifier_expr = _modifier_to_expr(parsed) if parsed else ""
         if modifier_expr and not modifier_expr.startswith("#"):
